@@ -128,6 +128,10 @@ def main(tier: str, seed: int) -> int:
             dict(kinds=['linear', 'conv', 'bn'], frozen=['none', 'all'],
                  max_leaves=3, max_depth=2, patterns=trees.PATTERNS[5:9],
                  max_pat=2, share=True, simulate=3000),
+            # independent patterns: inline flags of one do not leak to others
+            dict(kinds=['linear', 'conv'], frozen=['none'], max_leaves=2,
+                 max_depth=1, patterns=trees.CI_PATTERNS, max_pat=2,
+                 share=False),
             # sibling names that are string prefixes of one another
             dict(kinds=['linear', 'conv', 'act'], frozen=['none'],
                  max_leaves=3, max_depth=2, patterns=trees.PATTERNS[:3],
@@ -143,6 +147,9 @@ def main(tier: str, seed: int) -> int:
             dict(kinds=K, frozen=['none', 'part', 'all'], max_leaves=5,
                  max_depth=3, patterns=trees.PATTERNS, max_pat=3, share=True,
                  simulate=1500),
+            dict(kinds=['linear', 'conv', 'linsub'], frozen=['none'],
+                 max_leaves=3, max_depth=2, patterns=trees.CI_PATTERNS,
+                 max_pat=3, share=False),
             dict(kinds=['linear', 'conv', 'linsub', 'act', 'empty'],
                  frozen=['none', 'all'], max_leaves=3, max_depth=2,
                  patterns=trees.PATTERNS[:4], max_pat=1, share=True,
